@@ -135,6 +135,18 @@ def gen_cases(ctx, g, n):
     fixed(("mapping", [V8, I]), lambda: {Var(1, "k"): 1})
     fixed(("set", [("sequence", [("set", [U])])]), lambda: {(frozenset({env.attached[0]}),), ()})
     fixed(("sequence", [("set", [("tuple", [Q8, V8])])]), lambda: [{((5, 6), Var(1, "é"))}, set()])
+    # values that are EQUAL for Python but not the same value: the two zeros (and 1 / True / 1.0 where the types allow) side by side in
+    # one container -- as mapping values, sequence elements, tuple fields; floats are judged bit for bit
+    D, F = ("double", []), ("float", [])
+    for ft in (D, F):
+        fixed(("mapping", [I, ft]), lambda: {1: 0.0, 2: -0.0, 3: 0.0, 4: -0.0})
+        fixed(("mapping", [("string", []), ft]), lambda: {"a": -0.0, "b": 0.0, "c": 1.5})
+        fixed(("sequence", [ft]), lambda: [0.0, -0.0, 0.0, float("nan"), -0.0])
+        fixed(("tuple", [ft, ft, ft]), lambda: (-0.0, 0.0, -0.0))
+        fixed(("mapping", [I, ("sequence", [ft])]), lambda: {1: [0.0], 2: [-0.0]})
+        fixed(("sequence", [("mapping", [I, ft])]), lambda: [{1: -0.0}, {1: 0.0}])
+    fixed(("mapping", [I, ("uint8_t", [])]), lambda: {1: 1, 2: True, 3: 0, 4: False})
+    fixed(("mapping", [("string", []), ("string", [])]), lambda: {"a": "x", "b": "x", "c": ""})
     for k in range(n):
         t = auxval.rand_type(rng, rng.choice([0, 1, 1, 2, 2, 3, 4, 5]), rich=(k % 3 == 0))
         try:
